@@ -148,6 +148,20 @@ func c01get(idx int) c01case {
 			strs[i] = string(gen.BulkPayload(r, 200))
 		}
 		return c01case{kind: "ctor", s: gen.BulkPayload(r, 2000), strs: strs}
+	case 3:
+		if r.Chance(1, 40) {
+			// wide and shallow: many empty arrays (and nested empties) before a properly nested element
+			w := resp.Array()
+			for i, n := 0, 100+r.Intn(200); i < n; i++ {
+				if r.Chance(1, 5) {
+					w.A = append(w.A, resp.Array(resp.Array()))
+				} else {
+					w.A = append(w.A, resp.Array())
+				}
+			}
+			w.A = append(w.A, resp.Array(resp.Array(resp.Bulk(gen.BulkPayload(r, 20)))), resp.Array())
+			return c01case{kind: "tree", v: w}
+		}
 	}
 	maxBulk := 65536
 	return c01case{kind: "tree", v: gen.Tree(r, gen.Opt{MaxBulk: maxBulk, MaxArity: 40, MaxDepth: 6}, 0)}
